@@ -1,8 +1,8 @@
 use crate::contract::IBC_TIMEOUT;
 use crate::error::{ContractError, ContractResult};
 use crate::helpers::{
-    compute_mint_amount, compute_unbond_amount, derive_intermediate_sender, get_rates,
-    paginate_map, validate_address, validate_addresses,
+    checked_deadline, compute_mint_amount, compute_unbond_amount, derive_intermediate_sender,
+    get_rates, paginate_map, validate_address, validate_addresses,
 };
 use crate::oracle::Oracle;
 use crate::state::{
@@ -15,7 +15,7 @@ use crate::tokenfactory;
 use crate::types::{UnsafeNativeChainConfig, UnsafeProtocolChainConfig, UnsafeProtocolFeeConfig};
 use cosmwasm_std::{
     ensure, Coin, CosmosMsg, Deps, DepsMut, Env, IbcTimeout, MessageInfo, Order, ReplyOn, Response,
-    SubMsg, SubMsgResponse, SubMsgResult, Timestamp, Uint128,
+    StdError, SubMsg, SubMsgResponse, SubMsgResult, Timestamp, Uint128,
 };
 use cw_utils::PaymentError;
 use milky_way::staking::{Batch, BatchStatus};
@@ -397,7 +397,7 @@ pub fn execute_submit_batch(
     let new_pending_batch = Batch::new(
         batch.id + 1,
         Uint128::zero(),
-        env.block.time.seconds() + config.batch_period,
+        checked_deadline(env.block.time, config.batch_period)?,
     );
 
     // Save new pending batch
@@ -439,7 +439,10 @@ pub fn execute_submit_batch(
     batch.expected_native_unstaked = Some(unbond_amount);
     batch.update_status(
         BatchStatus::Submitted,
-        Some(env.block.time.seconds() + config.native_chain_config.unbonding_period),
+        Some(checked_deadline(
+            env.block.time,
+            config.native_chain_config.unbonding_period,
+        )?),
     );
 
     BATCHES.save(deps.storage, batch.id, &batch)?;
@@ -864,7 +867,8 @@ pub fn receive_rewards(mut deps: DepsMut, env: Env, info: MessageInfo) -> Contra
     let fee = config
         .protocol_fee_config
         .dao_treasury_fee
-        .multiply_ratio(amount, 100_000u128);
+        .checked_multiply_ratio(amount, 100_000u128)
+        .map_err(|e| StdError::generic_err(e.to_string()))?;
     let amount_after_fees = amount.checked_sub(fee);
     if amount_after_fees.is_err() {
         return Err(ContractError::ReceiveRewardsTooSmall {
